@@ -18,8 +18,10 @@ import LDEval.Proofs.Total
 
 namespace LD.C01
 
-/-- Evaluation terminates for every flag, context and store: the fuel `(#distinct keys)+2` is
-never exhausted, whatever the prerequisite and segment reference graphs look like. -/
+/-- Evaluation terminates for every flag, context and store: the fuel `(#distinct own keys of the
+stored items)+2` is never exhausted, whatever the prerequisite and segment reference graphs look
+like — and whatever lookup keys the data provider files its items under (`Store` is an arbitrary
+association list: the item returned for lookup key `k` need not have `k` as its own key). -/
 theorem total (env : Env) (f : Flag) : (evaluate env f).outcome = .done :=
   evaluate_total env f
 
@@ -68,5 +70,27 @@ example : WellFormed { key := "f", variations := [.bool true] }
 example : WellFormed { key := "f" } (Detail.forError .malformedFlag) := wf_forError_malformed _
 example : WellFormed { key := "f" } { reason := Reason.off } := by
   right; right; simp [Reason.off]
+
+-- Non-vacuity for INCONSISTENT data providers: the store answers the lookup `"gate"` with a flag whose
+-- own key is `"gate-v2"`, which is on and itself has a prerequisite on `"gate"`.  The path is built
+-- from own keys, so the second answer is recognised as a re-entry: the evaluation finishes with
+-- MALFORMED_FLAG after exactly two lookups.
+def gateV2 : Flag :=
+  { key := "gate-v2", on := true, prerequisites := [⟨"gate", 0⟩],
+    fallthrough := { variation := some 0 }, variations := [.bool true] }
+def feature : Flag :=
+  { key := "feature", on := true, prerequisites := [⟨"gate", 0⟩],
+    fallthrough := { variation := some 0 }, variations := [.bool true] }
+def aliasEnv : Env :=
+  { opts := {}, store := { flags := [("gate", gateV2)] }, bs := none,
+    ctx := .single { kind := "user", key := "u" }, rx := fun _ _ => none }
+
+example : (aliasEnv.store.findFlag "gate").map (·.key) = some "gate-v2" := by decide
+
+example :
+    (evaluate aliasEnv feature).outcome = .done ∧
+    (evaluate aliasEnv feature).result.detail.reason = Reason.error .malformedFlag ∧
+    (evaluate aliasEnv feature).result.detail.index = none ∧
+    (evaluate aliasEnv feature).flagLookups = ["gate", "gate"] := by decide
 
 end LD.C01
